@@ -248,6 +248,17 @@ impl IceConn {
         );
     }
 
+    /// Verification hook: public wrappers for the crate-private setters.
+    #[cfg(rustrtc_verif)]
+    pub fn verif_set_remote_addr_from_selected_pair(&self, addr: SocketAddr) {
+        self.set_remote_addr_from_selected_pair(addr, "verif");
+    }
+
+    #[cfg(rustrtc_verif)]
+    pub fn verif_set_remote_addr_from_signaling(&self, addr: SocketAddr) {
+        self.set_remote_addr_from_signaling(addr, "verif");
+    }
+
     /// Reset latching state before applying a remote SDP so a new source can
     /// be selected. Clears both the latch flag and any in-progress probation.
     pub fn reset_latch(&self) {
